@@ -1,7 +1,7 @@
 (* PROPERTY-LEVEL SPEC for C13: a monitor over what the property text talks about - and nothing else.
 
    ServerWriteSpec.v / ServerWrite2Spec.v are reference OBJECTS: they answer every operation with one
-   exact observation (one send call per operation, of the whole backlog; callbacks of two clients in
+   exact observation (one send call per operation, of the whole backlog; callbacks of several clients in
    the order of the poll round; onClosed bookkeeping; hang-up routing ...).  The property text fixes
    much less.  This file is the reading of the text as a set of traces: a monitor that consumes the
    events of ONE client connection in the order in which they happen and rejects a trace exactly when
@@ -17,23 +17,37 @@
                     (accepted bytes not yet handed to the operating system).
      (3) onWrite    an onWrite is delivered only when nothing is queued, and only once per backlog
                     ([m_owed]; an accepted write of NO bytes while nothing is queued - the text is silent
-                    about it - tolerates one: [m_may]); when a run() of the server ends, a backlog that
-                    has drained has had its onWrite.
+                    about it - tolerates one: [m_may]).  "Once that backlog has drained" gives no deadline;
+                    the monitor's is: a drained backlog whose onWrite is still owed when the kernel, asked by
+                    the poll of a run(), finds the socket writable has had its onWrite at the latest when the
+                    next but one run() ends (same slack as progress; an implementation may notice the empty
+                    queue at the writable report that FOLLOWS the drain).
          progress   a backlog whose socket the kernel finds writable when a run() polls is offered to the OS:
                     at the latest when the next but one run() ends, bytes were taken or a send was refused
                     (would-block) ([m_due]; two runs because a collected notification may be handed out by
                     the following run()).  Without this clause "nothing lost" says nothing about a backlog that
                     is never sent.
      (4) suspended  no onRead between suspend() and resume().
+         resumed    "... until it is resumed": a client that is not suspended (never was, or was resumed) gets
+                    read notifications: when the kernel, asked by the poll of a run(), finds unread input on its
+                    socket, an onRead is delivered at the latest when the next but one run() ends - unless the
+                    client is suspended in between, or the notification served the write side instead (bytes
+                    of the backlog were handed to the OS or an onWrite was delivered: the input is reported
+                    again, level-triggered, and the clause starts again) ([m_rdue]).
 
    What the text leaves open is not judged: the number and size of send calls, the order of callbacks of
-   different clients (each client has its own monitor), onClosed, when onRead IS delivered, the return
-   value of a write (it is an input: it defines which data count as accepted), everything after an event
-   outside the text's quantifier (a send answered with an error or with 0, the peer closing, the client
-   being removed: [EFault], after which only clause (4) is still judged).
+   different clients (each client has its own monitor), onClosed, the return
+   value of a write (it is an input: it defines which data count as accepted; a write of NO bytes that the
+   implementation turns into a send of 0 bytes answered 0 is such an input too and nothing more), everything
+   after an event outside the text's quantifier (a send answered with an error or - for a request of at least
+   one byte - with 0, the peer closing, the client being removed: [EFault], after which only clause (4)
+   suspended is still judged).
+
+   A run() here is a run() of the server that returns because the kernel reported the interrupt (the harness
+   calls interrupt() before every run()); [ERunEnd] events may stand anywhere between two operations.
 
    The theorems (ServerWriteMonitorProofs.v, Properties_C13.v) say: every history of the one-client
-   model and, per client, every history of the two-client model is accepted.  The extracted monitor
+   model and, per client, every history of the n-client model is accepted.  The extracted monitor
    judges the traces observed on the implementation (checks/C13.py). *)
 From Coq Require Import ZArith List Bool.
 From ServerWrite Require Import ServerWriteSpec.
@@ -53,7 +67,8 @@ Inductive pev :=
 | ESize (n : Z)                (* getSendBufferSize() = n *)
 | EPeer (d : list Z)           (* the peer has read everything delivered to it: d *)
 | EWritable                    (* the kernel, asked by the poll of a run(), finds the client's socket writable *)
-| ERunEnd.                     (* a run() of the server returned *)
+| EReadable                    (* the kernel, asked by the poll of a run(), finds unread input on the client's socket *)
+| ERunEnd.                     (* a run() of the server returned (the kernel had reported the interrupt) *)
 
 Record mon := mkmon {
   m_pend : list Z;     (* accepted, not yet handed to the operating system, in order *)
@@ -61,11 +76,13 @@ Record mon := mkmon {
   m_susp : bool;
   m_owed : bool;       (* a backlog was announced (a write left bytes queued) and its onWrite has not been delivered *)
   m_may : bool;        (* an empty write was accepted while nothing was queued *)
-  m_due : nat;         (* 0: no obligation; k+1: the backlog must have been offered when the (k+1)-th run() from now ends *)
+  m_due : nat;         (* 0: no obligation; k+1: when the (k+1)-th run() from now ends the backlog must have been offered /
+                          the onWrite owed for a drained backlog must have been delivered *)
+  m_rdue : nat;        (* 0: no obligation; k+1: when the (k+1)-th run() from now ends an onRead must have been delivered *)
   m_void : bool        (* an EFault happened *)
 }.
 
-Definition mon_init : mon := mkmon [] [] false false false 0 false.
+Definition mon_init : mon := mkmon [] [] false false false 0 0 false.
 
 (* clause numbers of a rejection *)
 Definition c_stream : Z := 1.
@@ -74,6 +91,7 @@ Definition c_onwrite : Z := 3.
 Definition c_suspended : Z := 4.
 Definition c_progress : Z := 5.
 Definition c_peer : Z := 6.
+Definition c_resumed : Z := 7.
 
 Inductive verdict := Go (m : mon) | Stop (clause : Z).
 
@@ -95,11 +113,18 @@ Fixpoint list_eqb (a b : list Z) : bool :=
   end.
 
 Definition set_susp_m (m : mon) (b : bool) : mon :=
-  mkmon (m_pend m) (m_wire m) b (m_owed m) (m_may m) (m_due m) (m_void m).
+  mkmon (m_pend m) (m_wire m) b (m_owed m) (m_may m) (m_due m) (if b then O else m_rdue m) (m_void m).
+
+Definition set_rdue (m : mon) (k : nat) : mon :=
+  mkmon (m_pend m) (m_wire m) (m_susp m) (m_owed m) (m_may m) (m_due m) k (m_void m).
+
+(* the two deadlines at the end of a run() *)
+Definition tick (k : nat) : option nat :=
+  match k with O => Some O | S O => None | S k' => Some k' end.
 
 Definition mon_step (m : mon) (e : pev) : verdict :=
   match e with
-  | ECb OnRead => if m_susp m then Stop c_suspended else Go m
+  | ECb OnRead => if m_susp m then Stop c_suspended else Go (set_rdue m O)
   | ESusp b => Go (set_susp_m m b)
   | _ =>
     if m_void m then Go m
@@ -113,36 +138,42 @@ Definition mon_step (m : mon) (e : pev) : verdict :=
             else Go (mkmon rest (m_wire m ++ tx) (m_susp m)
                            (m_owed m || negb (is_nil rest))
                            (m_may m || (ret && is_nil d && is_nil (m_pend m)))
-                           (if is_nil tx then m_due m else O) false)
+                           (if is_nil tx then m_due m else O) (m_rdue m) false)
         end
     | EHand tx =>
         match strip tx (m_pend m) with
         | None => Stop c_stream
-        | Some rest => Go (mkmon rest (m_wire m ++ tx) (m_susp m) (m_owed m) (m_may m) O false)
+        | Some rest => Go (mkmon rest (m_wire m ++ tx) (m_susp m) (m_owed m) (m_may m) O O false)
         end
-    | EBlock => Go (mkmon (m_pend m) (m_wire m) (m_susp m) (m_owed m) (m_may m) O false)
-    | EFault => Go (mkmon (m_pend m) (m_wire m) (m_susp m) (m_owed m) (m_may m) O true)
+    | EBlock => Go (mkmon (m_pend m) (m_wire m) (m_susp m) (m_owed m) (m_may m) O (m_rdue m) false)
+    | EFault => Go (mkmon (m_pend m) (m_wire m) (m_susp m) (m_owed m) (m_may m) O O true)
     | ECb OnWrite =>
         if is_nil (m_pend m) && (m_owed m || m_may m)
-        then Go (mkmon (m_pend m) (m_wire m) (m_susp m) false false (m_due m) false)
+        then Go (mkmon (m_pend m) (m_wire m) (m_susp m) false false O O false)
         else Stop c_onwrite
     | ECb _ => Go m
     | ESusp _ => Go m
     | ESize n => if n =? zlen (m_pend m) then Go m else Stop c_size
     | EPeer d =>
-        if list_eqb d (m_wire m) then Go (mkmon (m_pend m) [] (m_susp m) (m_owed m) (m_may m) (m_due m) false)
+        if list_eqb d (m_wire m) then Go (mkmon (m_pend m) [] (m_susp m) (m_owed m) (m_may m) (m_due m) (m_rdue m) false)
         else Stop c_peer
     | EWritable =>
-        if negb (is_nil (m_pend m)) && Nat.eqb (m_due m) O
-        then Go (mkmon (m_pend m) (m_wire m) (m_susp m) (m_owed m) (m_may m) 2 false)
+        if (m_owed m || negb (is_nil (m_pend m))) && Nat.eqb (m_due m) O
+        then Go (mkmon (m_pend m) (m_wire m) (m_susp m) (m_owed m) (m_may m) 2 (m_rdue m) false)
+        else Go m
+    | EReadable =>
+        if negb (m_susp m) && Nat.eqb (m_rdue m) O
+        then Go (set_rdue m 2)
         else Go m
     | ERunEnd =>
-        if m_owed m && is_nil (m_pend m) then Stop c_onwrite
-        else match m_due m with
-             | O => Go m
-             | S O => Stop c_progress
-             | S k => Go (mkmon (m_pend m) (m_wire m) (m_susp m) (m_owed m) (m_may m) k false)
-             end
+        match tick (m_due m) with
+        | None => Stop (if is_nil (m_pend m) then c_onwrite else c_progress)
+        | Some k =>
+            match tick (m_rdue m) with
+            | None => Stop c_resumed
+            | Some k' => Go (mkmon (m_pend m) (m_wire m) (m_susp m) (m_owed m) (m_may m) k k' false)
+            end
+        end
     end
   end.
 
@@ -155,8 +186,8 @@ Fixpoint mon_run (m : mon) (l : list pev) : verdict :=
 Definition accepted_trace (l : list pev) : Prop := exists m, mon_run mon_init l = Go m.
 
 (* ---- the trace of a model history ----------------------------------------------------------------
-   What one step of the model (operation x, observation r, client state s' afterwards) lets the
-   monitor see.  One poll event of the one-client model is one run() of the server. *)
+   What one step of the model (operation x, observation r) lets the monitor see.  One poll event of the
+   one-client model is one poll of a run(). *)
 
 (* the send a write-ready part issued, as events: the outcome decides the kind *)
 Definition send_events (r : out) : list pev :=
@@ -166,30 +197,45 @@ Definition send_events (r : out) : list pev :=
        | (_, ret) :: _ => if 0 <? ret then [EHand (o_tx r)] else [EBlock]
        end.
 
-Definition size_event (removed_after : bool) (sb : Z) : list pev :=
-  if removed_after then [] else [ESize sb].
+(* [writable] / [readable]: the kernel was asked and what it finds for this socket includes EPOLLOUT / EPOLLIN *)
+Definition ask_events (writable readable : bool) : list pev :=
+  (if writable then [EWritable] else []) ++ (if readable then [EReadable] else []).
 
-(* [writable]: the readiness the kernel reports in this event includes EPOLLOUT *)
-Definition dispatch_events (writable : bool) (r : out) (removed_after : bool) (sb : Z) : list pev :=
-  (if writable then [EWritable] else []) ++ send_events r ++ map ECb (o_cbs r) ++ size_event removed_after sb ++ [ERunEnd].
+Definition dispatch_events (writable readable : bool) (r : out) : list pev :=
+  ask_events writable readable ++ send_events r ++ map ECb (o_cbs r).
 
-(* [asked]: the step includes the poll of a run() (one-client machine: every poll event does) *)
-Definition events_of (asked : bool) (x : op) (r : out) (removed_after : bool) (sb : Z) : list pev :=
+(* a write that did not return true is outside the quantifier (EFault) unless it is a write of NO bytes that
+   was turned into a send of 0 bytes answered 0 (the text is silent; the connection is healthy) *)
+Definition write_fault (d : list Z) (r : out) : bool :=
+  match o_ret r with
+  | Some true => false
+  | _ => negb (is_nil d) || match o_sends r with (_, ret) :: _ => ret <? 0 | [] => false end
+  end.
+
+(* [asked]: the step includes the poll of a run() (one-client machine: every poll event does);
+   [rn]: the readiness of the real socket pair before the step (PollReal) *)
+Definition events_of (asked : bool) (rn : native) (x : op) (r : out) : list pev :=
   if o_dead r then []
   else
   match x with
   | Write d _ =>
-      (if match o_ret r with Some true => false | _ => true end then [EFault] else []) ++
-      [EWrite d (match o_ret r with Some true => true | _ => false end) (Some (o_num r)) (o_tx r)] ++
-      size_event removed_after sb
-  | Dispatch n _ => dispatch_events (asked && nout n) r removed_after sb
-  | PollReal _ => dispatch_events asked r removed_after sb
+      (if write_fault d r then [EFault] else []) ++
+      [EWrite d (match o_ret r with Some true => true | _ => false end) (Some (o_num r)) (o_tx r)]
+  | Dispatch n _ => dispatch_events (asked && nout n) (asked && nin n) r
+  | PollReal _ => dispatch_events (asked && nout rn) (asked && nin rn) r
   | CloseSweep => map ECb (o_cbs r)
-  | Suspend => [ESusp true] ++ size_event removed_after sb
-  | Resume => [ESusp false] ++ size_event removed_after sb
-  | Read _ => size_event removed_after sb
-  | PeerWrite _ => size_event removed_after sb
-  | PeerRead => [EPeer (o_data r)] ++ size_event removed_after sb
+  | Suspend => [ESusp true]
+  | Resume => [ESusp false]
+  | Read _ => []
+  | PeerWrite _ => []
+  | PeerRead => [EPeer (o_data r)]
   | PeerClose => [EPeer (o_data r); EFault]
   | Remove => [EFault]
   end.
+
+(* A history as the monitor sees it: operations of the model, probes of getSendBufferSize(), ends of run() calls -
+   in any order (where a run() ends, and where the application asks for the size, is up to the history). *)
+Inductive hop :=
+| HOp (x : op)
+| HSize
+| HRunEnd.
